@@ -247,6 +247,8 @@ def rule_ag3_small(ctx: Ctx):
                     elems.append("elem" if m.event.payload[0] == "loopvar" and m.event.keyclass == SAME else "other")
                 else:
                     elems.append("elem" if m.eff.arg[0] == "loopvar" else "other")
+            if any(e.k == "loopexit" and e.d.get("broke") for e in p.trace) or (p.outcome == "return" and loops):
+                elems.append("loop-left-early")
             out.add((over, tuple(elems)))
         return out
     a, b = fm_skel(mux, "Next"), fm_skel(obs, None)
